@@ -64,7 +64,8 @@ func (x *c13Use) several() []parquet.RowGroup {
 
 type c13Consumer struct {
 	Name string
-	// Unit: what is consumed: "chunk" the column chunk of the page, "rg" its row group, "file" every row group
+	// Unit: what is consumed: "chunk" the column chunk of the page, "rg" its row group, "file" every row group,
+	// "page" the row group in a way that depends on the page
 	Unit string
 	// Kind: consumer kind of the model: decode | verbatim (as configured; the observed WriteRowGroup path decides)
 	Kind  string
@@ -75,6 +76,7 @@ type c13Consumer struct {
 	Wrg         bool
 	Same, Plain bool
 	Sorted      int // needs a file with declared sorting columns (1: any, 2: non-overlapping row groups)
+	Groups      int // needs a file of at least so many row groups
 	Run         func(x *c13Use) c13Read
 }
 
@@ -692,7 +694,57 @@ func c13Consumers() []c13Consumer {
 			return
 		}},
 	}
+	// merges of k inputs, the row group of the page being input number p: every
+	// input of a 2-, 3- and 4-way merge holds the fault in turn (the merge of two
+	// readers is a routine of its own, merge.go mergedRowReader2; three and more go
+	// through the loser tree), the other inputs are the following row groups of the
+	// file.  Pages behind the first rows of the input are met when the merge refills
+	// the buffer of that input, not when it is set up.
+	for k := 2; k <= 4; k++ {
+		for p := 0; p < k; p++ {
+			k, p := k, p
+			cs = append(cs, c13Consumer{Name: fmt.Sprintf("MergeRowGroups(%d inputs, page in input %d).Rows", k, p), Unit: "rg", Kind: "decode", Sorted: 1, Groups: k,
+				Run: func(x *c13Use) (out c13Read) {
+					m, err := parquet.MergeRowGroups(x.inputs(k, p), parquet.SortingRowGroupConfig(parquet.SortingColumns(parquet.Ascending("a"))))
+					if err != nil {
+						out.err = fmt.Errorf("c13: MergeRowGroups: %v", err)
+						return
+					}
+					rows := m.Rows()
+					defer rows.Close()
+					out.err = c13DrainRows(&out, rows, x.limit, 29)
+					return
+				}})
+			cs = append(cs, c13Consumer{Name: fmt.Sprintf("MergeRowReaders(%d inputs, page in input %d)", k, p), Unit: "rg", Kind: "decode", Groups: k,
+				Run: func(x *c13Use) (out c13Read) {
+					var rrs []parquet.RowReader
+					for _, rg := range x.inputs(k, p) {
+						r := rg.Rows()
+						defer r.Close()
+						rrs = append(rrs, r)
+					}
+					cmp := x.f.Schema().Comparator(parquet.Ascending("a"))
+					out.err = c13DrainRows(&out, parquet.MergeRowReaders(rrs, cmp), x.limit, 29)
+					return
+				}})
+		}
+	}
 	return cs
+}
+
+// inputs: k distinct row groups of the file, the row group of the page at position p.
+func (x *c13Use) inputs(k, p int) []parquet.RowGroup {
+	rgs := x.f.RowGroups()
+	out := make([]parquet.RowGroup, 0, k)
+	for j := 1; len(out) < k; {
+		if len(out) == p {
+			out = append(out, x.rowGroup())
+			continue
+		}
+		out = append(out, rgs[(x.pg.RG+j)%len(rgs)])
+		j++
+	}
+	return out
 }
 
 var c13ConsumerList = c13Consumers()
@@ -706,6 +758,11 @@ func c13ConsumerByName(n string) *c13Consumer {
 			return &c13ConsumerList[i]
 		}
 	}
+	for i := range c13VariantConsumerList {
+		if c13VariantConsumerList[i].Name == n {
+			return &c13VariantConsumerList[i]
+		}
+	}
 	return nil
 }
 
@@ -714,6 +771,9 @@ func (k *c13Consumer) applicable(h *c13File) bool {
 		return false
 	}
 	if k.Sorted > 0 && h.cfg.Sorted < k.Sorted {
+		return false
+	}
+	if k.Groups > 0 && len(h.base)-1 < k.Groups {
 		return false
 	}
 	return true
@@ -764,6 +824,8 @@ func (h *c13File) consumerClean(k *c13Consumer, pg *c13Page) *c13Read {
 		key += fmt.Sprintf("/%d/%d", pg.RG, pg.Col)
 	case "rg":
 		key += fmt.Sprintf("/%d", pg.RG)
+	case "page": // what is read depends on the page (windows laid along the pages of its column chunk)
+		key += fmt.Sprintf("/%d/%d/%d", pg.RG, pg.Col, pg.Index)
 	}
 	if r, ok := h.clean[key]; ok {
 		return r
